@@ -383,6 +383,9 @@ fn apply_stack_effects(fun_builder: &mut FunBuilder, instructions: &mut [Symboli
   // instruction that transfers control to it
   let mut label_slots: HashMap<u32, i32> = HashMap::new();
 
+  // after an unconditional transfer code is dead until a label some live jump targets
+  let mut reachable = true;
+
   for instruction in instructions {
     match instruction {
       SymbolicByteCode::Label(label) => {
@@ -390,6 +393,7 @@ fn apply_stack_effects(fun_builder: &mut FunBuilder, instructions: &mut [Symboli
         // so continue with the depth of the jump rather than the linear depth
         if let Some(entry_slots) = label_slots.get(&label.val()) {
           slots = *entry_slots;
+          reachable = true;
         }
       },
       SymbolicByteCode::PushHandler((_, label)) => {
@@ -402,19 +406,32 @@ fn apply_stack_effects(fun_builder: &mut FunBuilder, instructions: &mut [Symboli
       _ => (),
     }
 
+    // dead code never runs so it has no depth to account for
+    if !reachable {
+      continue;
+    }
+
     slots += instruction.stack_effect();
     debug_assert!(slots >= 0);
     fun_builder.update_max_slots(slots);
 
     match instruction {
-      SymbolicByteCode::Jump(label)
-      | SymbolicByteCode::JumpIfFalse(label)
-      | SymbolicByteCode::CheckHandler(label) => {
+      SymbolicByteCode::Jump(label) => {
+        label_slots.entry(label.val()).or_insert(slots);
+        reachable = false;
+      },
+      SymbolicByteCode::JumpIfFalse(label) | SymbolicByteCode::CheckHandler(label) => {
         label_slots.entry(label.val()).or_insert(slots);
       },
       // the operand is left on the stack when short circuiting
       SymbolicByteCode::And(label) | SymbolicByteCode::Or(label) => {
         label_slots.entry(label.val()).or_insert(slots + 1);
+      },
+      SymbolicByteCode::Return
+      | SymbolicByteCode::Raise
+      | SymbolicByteCode::Loop(_)
+      | SymbolicByteCode::ContinueUnwind => {
+        reachable = false;
       },
       _ => (),
     }
